@@ -173,4 +173,53 @@ def runTasks (l : Lim) : LState → List HookRunTask → List Int
   | _, [] => []
   | s, tk :: tks => (handleHookRun l s tk).2 ++ runTasks l (handleHookRun l s tk).1 tks
 
+/-! ## The wait with a context, and the combined series -/
+
+/-- `rate.Limiter.Wait(ctx)` = `WaitN(ctx, 1)` as `Hook.RateLimitWait` calls it. `deadline = none`: the
+context has no deadline (`context.Background()` — what `taskHandleHookRun` passes, unwrapped, through
+`RateLimitWait`: skeleton `Hook.RateLimitWait`); `some d`: the deadline is `d` ns after the call.
+`reserveN(t, 1, waitLimit)` refuses a reservation whose delay exceeds `waitLimit` — `Wait` then returns
+a plain error ("would exceed context deadline", neither `Canceled` nor `DeadlineExceeded`) AT ONCE —
+and the bucket keeps its tokens; `1 > burst` is refused likewise. -/
+def waitCtx (l : Lim) (s : LState) (t : Int) (deadline : Option Int) : LState × Option Int :=
+  match reserve l s t with
+  | (s', some g) =>
+    match deadline with
+    | none => (s', some g)
+    | some d => if g - t ≤ d then (s', some g) else (s, none)
+  | (_, none) => (s, none)
+
+/-- A queued `HookRun` task at the moment the queue worker enters its handler: the task, the deadline
+of the context its wait is given, and the number of FOLLOWING tasks of the hook in the queue that
+`combineBindingContextForHook` merges into it AFTER the wait (their binding contexts are appended to
+the task's, the tasks leave the queue): the length of the series of events that piled up while the
+hook was throttled or its queue was busy — any number. -/
+structure QTask where
+  task : HookRunTask
+  deadline : Option Int := none
+  combined : Nat := 0
+  deriving Repr
+
+/-- `ShellOperator.handleRunHook` for a task that carries `contexts` binding contexts:
+`taskHook.Run(bindingType, hookMeta.BindingContext, …)` is called ONCE with the whole list (skeleton
+`C18.handleRunHook`: one `Run`, not in a loop) — one hook process, however long the list. -/
+def handleRunHookN (g : Int) (out : Outcome) (_contexts : Nat) : List Int := hookRun g out
+
+/-- `taskHandleHookRun` with the wait's outcome and the combining spelled out: ANY error of the wait —
+whatever its identity — returns `Repeat` before anything else happens (skeleton
+`C18.taskHandleHookRun`: `if err != nil { return }` right after the call): no process, and (`waitCtx`)
+no token; after a successful wait the series is combined and `handleRunHook` runs once. -/
+def handleHookRunQ (l : Lim) (s : LState) (q : QTask) : LState × List Int :=
+  match waitCtx l s q.task.t q.deadline with
+  | (s', none) => (s', [])
+  | (s', some g) =>
+    if q.task.kind = .synchronization ∧ q.task.runOnSync = false then (s', [])
+    else (s', handleRunHookN g q.task.out (1 + q.combined))
+
+/-- The handler calls of one hook in the order in which they take the limiter's mutex (a repeated
+task is a later element of the list). -/
+def runQTasks (l : Lim) : LState → List QTask → List Int
+  | _, [] => []
+  | s, q :: qs => (handleHookRunQ l s q).2 ++ runQTasks l (handleHookRunQ l s q).1 qs
+
 end ShellOp.RateLimit
